@@ -360,13 +360,18 @@ def unit_C19g(src):
             return Contract(ensures=['ret == %s_cast::<S, T>(*self)' % st.lower()])
         if im.trait is None and f.name == 'from_sv' and st == 'Quaternion':
             return Contract(ensures=['ret == (Quaternion { v: $1, s: $0 })'])
+        if im.trait is None and f.name == 'new' and re.fullmatch(r'(Vector|Point)[1-4]', st):
+            n = int(st[-1])
+            return Contract(ensures=['ret == (%s { %s })' % (st, ', '.join('%s: $%d' % (XY[k], k) for k in range(n)))])
+        if im.trait is None and f.name == 'new' and st == 'Quaternion':
+            return Contract(ensures=['ret == (Quaternion { v: (Vector3 { x: $1, y: $2, z: $3 }), s: $0 })'])
         if trait_name(im.trait) == 'Clone':
             return Contract(ensures=[])
         return None
     u.contract_fns.append(contracts)
     u.assume_pred = lambda im, f: im is not None and trait_name(im.trait) == 'Clone'
     tys = r'(Vector[1-4]|Point[1-3]|Matrix[2-4]|Quaternion)<S>'
-    u.select(Sel(None, tys, ['cast']), Sel(None, r'Quaternion<S>', ['from_sv'], generics=r'<S>'), Sel('Clone', tys), Sel('Copy', tys))
+    u.select(Sel(None, tys, ['cast']), Sel(None, r'Quaternion<S>', ['from_sv', 'new'], generics=r'<S>'), Sel(None, r'(Vector[1-4]|Point[1-3])<S>', ['new'], generics=r'<S>'), Sel('Clone', tys), Sel('Copy', tys))
     u.struct_names = ['Vector1', 'Vector2', 'Vector3', 'Vector4', 'Point1', 'Point2', 'Point3', 'Matrix2', 'Matrix3', 'Matrix4', 'Quaternion']
     return u
 
@@ -462,7 +467,7 @@ def unit_C08(src, k):
         add_laws(u, c_xform.laws(F, k))
     else:
         for L in c_quat.laws(F):
-            if L.name == 'q_ring':
+            if L.name in ('q_ring', 'q_inverse'):
                 u.lemma_texts.append(L.render_assumed('C04'))
         u.lemma_texts += c_xform.laws_q(F)
     own = lambda im, f: im is not None and 'Decomposed' in im.header
